@@ -6,12 +6,13 @@ From LR Require Import lib.Base lib.Seg model.LineReader model.Scanner proofs.Li
 Local Arguments seg : simpl never.
 
 Section ScP.
+Variable lp : bool.   (* the reader: every lemma up to the read-offs about sleeps holds for both *)
 Variable B : nat.
 Variable rpe : nat.
 Hypothesis Bpos : 0 < B.
 
-Notation step := (step B rpe).
-Notation run := (run B rpe).
+Notation step := (step lp B rpe).
+Notation run := (run lp B rpe).
 
 (* ---------- run ---------- *)
 Lemma run_app s a b :
@@ -138,6 +139,21 @@ Proof. apply seg_all. Qed.
 
 Ltac fin := try assumption; try reflexivity; try lia; try (constructor; fail).
 
+(* EOF without a delimiter: what was left of the file joins the reader's partial line *)
+Lemma inv_keep s tr n b' : Inv s tr -> ph s = PRead ->
+  b' = buf s ++ skipn (rpos s) (wfile s) -> n = length (skipn (rpos s) (wfile s)) ->
+  ~ In nl (skipn (rpos s) (wfile s)) ->
+  Inv (upd_read s (rpos s + n) b' (ppos s) (recs s) PRead) tr.
+Proof.
+  intros I P S1 S2 S3. destruct I.
+  assert (UL : length (skipn (rpos s) (wfile s)) = length (wfile s) - rpos s) by apply skipn_length.
+  assert (LB : length b' = length (buf s) + n) by (rewrite S1, app_length, S2; reflexivity).
+  constructor; cbn; try assumption; try lia.
+  - rewrite LB, <- seg_app, <- i_buf0, <- i_rp0. rewrite S1. f_equal. rewrite S2. apply seg_all.
+  - rewrite S1. intros F. apply in_app_or in F. tauto.
+  - unfold phase_inv in *. cbn. rewrite P in i_ph0. exact i_ph0.
+Qed.
+
 Lemma inv_step s tr e : Inv s tr -> (forall b c, e <> EReplace b c) ->
   Inv (fst (step s e)) (tr ++ snd (step s e)).
 Proof.
@@ -154,11 +170,11 @@ Proof.
     + eapply all_splits_impl; [|exact i_obs0]. intros t o. apply good_mono.
   - (* ERead *)
     destruct (ph s) eqn:P; cbn [fst snd]; try (rewrite app_nil_r; exact I0).
-    destruct (read_line_turn B (buf s) (skipn (rpos s) (wfile s))) as [n r] eqn:R.
+    destruct (read_line_turn lp B (buf s) (skipn (rpos s) (wfile s))) as [n r] eqn:R.
     assert (UL : length (skipn (rpos s) (wfile s)) = length (wfile s) - rpos s) by apply skipn_length.
-    destruct r as [line| |b'].
+    destruct r as [line|b'|b'].
     + (* a record *)
-      destruct (read_line_turn_line _ _ _ _ _ Bpos R) as (L1 & L2 & L3 & L4).
+      destruct (read_line_turn_line _ _ _ _ _ _ Bpos R) as (L1 & L2 & L3 & L4).
       assert (LN : length (firstn n (skipn (rpos s) (wfile s))) = n) by (rewrite firstn_length; lia).
       assert (LL : length line = length (buf s) + n) by (rewrite L1, app_length, LN; reflexivity).
       assert (SEG : line = seg (wfile s) (ppos s) (length line)).
@@ -173,26 +189,22 @@ Proof.
       * rewrite i_recs0 at 1. rewrite SEG at 1. rewrite <- i_off0. apply seg_app.
       * apply Forall_app. split; [exact i_good0|]. constructor; [exact L4|constructor].
       * apply PI. destruct (_ =? rpe); [right; eexists; reflexivity|left; reflexivity].
-    + (* clean EOF *)
+    + (* (nil, io.EOF) *)
+      destruct (read_line_turn_eof _ _ _ _ _ _ R) as (S1 & S2 & S3 & _).
+      pose proof (inv_keep s tr n b' I0 P S1 S2 S3) as I1.
       destruct (recs s) eqn:RC.
       * destruct (until_eof s); cbn [fst snd].
         -- replace (tr ++ [OSleep false; OExit]) with ((tr ++ [OSleep false]) ++ [OExit]) by (rewrite <- app_assoc; reflexivity).
            apply inv_neutral; [|reflexivity|exact Logic.I]. apply inv_done.
-           ++ apply inv_neutral; [exact I0|reflexivity|exact Logic.I].
+           ++ apply inv_neutral; [exact I1|reflexivity|exact Logic.I].
            ++ unfold conf_of. rewrite marks_snoc. cbn. unfold phase_inv in i_ph0. rewrite P in i_ph0. tauto.
-        -- apply inv_neutral; [exact I0|reflexivity|exact Logic.I].
-      * cbn [fst snd]. rewrite app_nil_r. constructor; cbn; rewrite ?RC; try assumption.
-        unfold phase_inv in *. cbn. rewrite P in i_ph0. destruct i_ph0 as [A1 A2]. repeat split; try assumption.
-        discriminate.
-    + (* EOF inside a line *)
-      destruct (read_line_turn_sleep _ _ _ _ _ R) as (S1 & S2 & S3 & S4).
-      cbn [fst snd].
-      assert (LB : length b' = length (buf s) + n) by (rewrite S1, app_length, S2; reflexivity).
-      constructor; cbn; try assumption; unfold hpos_of, conf_of, ends_of, pers_of in *; rewrite ?marks_snoc; cbn; try assumption; try lia.
-      * rewrite LB, <- seg_app, <- i_buf0, <- i_rp0. rewrite S1. f_equal. rewrite S2. apply seg_all.
-      * rewrite S1. intros F. apply in_app_or in F. tauto.
-      * unfold phase_inv in *. cbn. rewrite P in i_ph0. exact i_ph0.
-      * apply all_splits_snoc; [assumption|exact Logic.I].
+        -- apply inv_neutral; [exact I1|reflexivity|exact Logic.I].
+      * cbn [fst snd]. rewrite app_nil_r. destruct I1. constructor; cbn in *; try assumption.
+        unfold phase_inv in *. cbn in *. repeat split; try tauto. discriminate.
+    + (* EOF inside a line, the reader that loops *)
+      destruct (read_line_turn_sleep _ _ _ _ _ _ R) as (S1 & S2 & S3 & _).
+      cbn [fst snd]. apply inv_neutral; [|reflexivity|exact Logic.I].
+      exact (inv_keep s tr n b' I0 P S1 S2 S3).
   - (* ETake *)
     destruct (ph s) eqn:P; cbn [fst snd]; try (rewrite app_nil_r; exact I0).
     unfold phase_inv in i_ph0. rewrite P in i_ph0. destruct i_ph0 as (A1 & A2 & A3).
@@ -340,51 +352,73 @@ Proof.
   rewrite i_off0 in E. rewrite <- i_rp0 in E. rewrite <- i_recs0, <- i_buf0 in E. exact E.
 Qed.
 
-(* when the worker finds nothing to send at EOF (the 1 s sleep) the whole file has been handed over and confirmed *)
-Lemma idle_complete evs o : no_replace evs -> let s := fin evs in
-  ph s = PRead -> snd (step s ERead) = OSleep false :: o ->
-  woff s = length (file s) /\ hpos_of (trc evs) = length (file s) /\ conf_of (trc evs) = length (file s).
+(* the reader of the code never sleeps inside readLine: every sleep of the worker is the one in sendOrSleep *)
+Lemma sleep_kind s p o : lp = false -> snd (step s ERead) = OSleep p :: o -> p = false.
 Proof.
-  intros NR s P H. pose proof (inv_all evs NR) as I. fold s in I. destruct I.
-  unfold phase_inv in i_ph0. rewrite P in i_ph0. destruct i_ph0 as [A1 A2].
-  cbn [step] in H. rewrite P in H.
-  destruct (read_line_turn B (buf s) (skipn (rpos s) (wfile s))) as [n r] eqn:R.
-  destruct r as [line| |b']; cbn in H; try discriminate.
-  - destruct (read_line_turn_eof _ _ _ _ R) as [Eb Eu].
-    destruct (recs s) eqn:RC; [|discriminate].
-    assert (L : length (skipn (rpos s) (wfile s)) = 0) by (rewrite Eu; reflexivity).
-    rewrite skipn_length in L. rewrite Eb in i_rp0. cbn in i_rp0, i_off0.
-    unfold hpos_of, conf_of. rewrite i_wf0 in *. lia.
+  intros L H. cbn [step] in H. destruct (ph s); try discriminate.
+  destruct (read_line_turn lp B (buf s) (skipn (rpos s) (wfile s))) as [n r] eqn:R.
+  destruct r as [line|b'|b']; cbn in H; try discriminate.
+  - destruct (recs s); [destruct (until_eof s)|]; cbn in H; try discriminate; injection H as <- _; reflexivity.
+  - destruct (read_line_turn_sleep _ _ _ _ _ _ R) as (_ & _ & _ & _ & T). congruence.
 Qed.
 
-(* when the worker sleeps inside readLine (EOF within a line) everything has been read; what has not been
-   handed over is the current batch and the partial line - and nothing but the partial line if the batch is empty *)
-Lemma partial_sleep evs : no_replace evs -> let s := fin evs in let s' := fst (step s ERead) in
-  ph s = PRead -> snd (step s ERead) = [OSleep true] ->
-  rpos s' = length (file s') /\ buf s' <> [] /\ ~ In nl (buf s') /\
-  file s' = firstn (woff s') (file s') ++ concat (recs s') ++ buf s' /\
-  hpos_of (trc evs) = woff s' /\
-  (recs s' = [] -> hpos_of (trc evs) + length (buf s') = length (file s')).
+(* when the worker finds nothing to send at EOF (the 1 s sleep in sendOrSleep) the batch is empty, everything
+   has been read, and the file is: what has been handed over and confirmed, followed by the reader's partial
+   line (no '\n' in it) - nothing else is outstanding *)
+Lemma eof_sleep evs o : no_replace evs -> let s := fin evs in let s' := fst (step s ERead) in
+  ph s = PRead -> snd (step s ERead) = OSleep false :: o ->
+  recs s' = [] /\ rpos s' = length (file s') /\ ~ In nl (buf s') /\
+  file s' = firstn (hpos_of (trc evs)) (file s') ++ buf s' /\
+  hpos_of (trc evs) + length (buf s') = length (file s') /\
+  conf_of (trc evs) = hpos_of (trc evs).
 Proof.
   intros NR s s' P H. pose proof (inv_all evs NR) as I. fold s in I.
-  assert (NE : forall b c, ERead <> EReplace b c) by discriminate.
-  pose proof (inv_step s (trc evs) ERead I NE) as I'. fold s' in I'.
   pose proof (i_ph _ _ I) as J. unfold phase_inv in J. rewrite P in J. destruct J as [A1 A2].
+  pose proof (i_wf _ _ I) as WF. pose proof (i_rle _ _ I) as RLE.
   subst s'. cbn [step] in *. rewrite P in *.
-  destruct (read_line_turn B (buf s) (skipn (rpos s) (wfile s))) as [n r] eqn:R.
-  destruct r as [line| |b']; cbn in H; try discriminate.
-  - destruct (recs s); [destruct (until_eof s)|]; discriminate.
-  - destruct (read_line_turn_sleep _ _ _ _ _ R) as (S1 & S2 & S3 & S4).
-    cbn [fst snd] in *. destruct I'. cbn in *.
-    assert (RL : rpos s + n = length (file s)).
-    { rewrite S2, skipn_length. rewrite i_wf0 in *. lia. }
-    assert (F : file s = firstn (woff s) (file s) ++ concat (recs s) ++ b').
-    { rewrite i_wf0 in *.
-      pose proof (split4 _ (file s) (woff s) (length (concat (recs s))) (length b')) as E.
-      rewrite i_off0 in E. rewrite <- i_recs0, <- i_buf0 in E.
-      rewrite skipn_all2 in E by lia. rewrite app_nil_r in E. exact E. }
-    repeat split; try assumption.
-    + intros RC. rewrite RC in *. cbn in *. unfold hpos_of. lia.
+  destruct (read_line_turn lp B (buf s) (skipn (rpos s) (wfile s))) as [n r] eqn:R.
+  destruct r as [line|b'|b']; cbn in H; try discriminate.
+  destruct (read_line_turn_eof _ _ _ _ _ _ R) as (S1 & S2 & S3 & _).
+  pose proof (inv_keep s (trc evs) n b' I P S1 S2 S3) as I1.
+  destruct (recs s) eqn:RC; [|discriminate].
+  assert (RL : rpos s + n = length (file s)).
+  { rewrite S2, skipn_length. rewrite WF in *. lia. }
+  destruct I1. cbn in *. cbn in *. rewrite WF in *.
+  assert (WP : woff s = ppos s) by lia.
+  assert (F : file s = firstn (woff s) (file s) ++ b').
+  { pose proof (split4 _ (file s) (ppos s) 0 (length b')) as E.
+    rewrite Nat.add_0_r in E. rewrite <- i_buf0, <- seg_nil in E.
+    rewrite skipn_all2 in E by lia. rewrite app_nil_r in E. rewrite WP. exact E. }
+  unfold hpos_of, conf_of. rewrite A1, A2.
+  destruct (until_eof s); cbn; repeat split; try assumption; try lia.
+Qed.
+
+(* ... so if the file is empty or ends in '\n', the whole file has been handed over and confirmed *)
+Lemma no_nl_tail (pre a b : bytes) : pre ++ [nl] = a ++ b -> ~ In nl b -> b = [].
+Proof.
+  intros E N. destruct b as [|x b] using rev_ind; [reflexivity|].
+  rewrite app_assoc in E. apply app_inj_tail in E as [_ <-]. exfalso. apply N. apply in_or_app. right. left. reflexivity.
+Qed.
+
+Lemma step_read_file s : file (fst (step s ERead)) = file s.
+Proof.
+  cbn [step]. destruct (ph s); try reflexivity.
+  destruct (read_line_turn lp B (buf s) (skipn (rpos s) (wfile s))) as [n r]. destruct r; try reflexivity.
+  destruct (recs s); [destruct (until_eof s)|]; reflexivity.
+Qed.
+
+Lemma idle_complete evs o : no_replace evs -> let s := fin evs in
+  ph s = PRead -> snd (step s ERead) = OSleep false :: o ->
+  file s = [] \/ (exists pre, file s = pre ++ [nl]) ->
+  hpos_of (trc evs) = length (file s) /\ conf_of (trc evs) = length (file s).
+Proof.
+  intros NR s P H E. destruct (eof_sleep evs o NR P H) as (_ & _ & N & F & L & C). fold s in N, F, L, C.
+  rewrite (step_read_file s) in *.
+  assert (Z : buf (fst (step s ERead)) = []).
+  { destruct E as [E|[pre E]].
+    - apply length_zero_iff_nil. rewrite E in L. cbn [length] in L. lia.
+    - rewrite E in F at 1. exact (no_nl_tail _ _ _ F N). }
+  rewrite Z in L. cbn in L. lia.
 Qed.
 
 (* a save at any moment except between a confirmation and the worker's setOffset, followed by a
@@ -518,7 +552,7 @@ Proof.
 Qed.
 
 (* the unit the correspondence check schedules (run_reads) is a run of single ReadSlice turns *)
-Lemma run_reads_is_run fuel s : exists n, run_reads B rpe fuel s = run s (repeat ERead n).
+Lemma run_reads_is_run fuel s : exists n, run_reads lp B rpe fuel s = run s (repeat ERead n).
 Proof.
   revert s. induction fuel as [|f IH]; intros s; [exists 0; reflexivity|].
   cbn [run_reads]. destruct (ph s) eqn:P; try (exists 0; reflexivity).
